@@ -6,10 +6,12 @@ CONSTANTS
   KR = 0
   WPats <- WPatsLong
   RPats <- RPatsLong
+  PathLens <- DefaultPath
+  SunPathMax = 107
   QueueCap = 250
   Chunk = 4096
   SendMech = "repaired"
   RecvMech = "repaired"
   Obs <- ObsEmit
-INVARIANTS TypeOK CursorInsideBuffer SizeNeverShrinksBelowData CursorTracksData EofEndsLoop SendCompleteMeansAll ReceivedEqualsSent CallBudget
+INVARIANTS TypeOK PairEstablished CursorInsideBuffer SizeNeverShrinksBelowData CursorTracksData EofEndsLoop SendCompleteMeansAll ReceivedEqualsSent CallBudget
 CHECK_DEADLOCK TRUE
